@@ -88,8 +88,6 @@ def base_scenarios():
     add('change-gap-distance-g', [tx('T1', 'block', ['ext'], [['r0', 50, pay]])],
         [tx('T2', 'block', [['T1', 0]], [['c1', 49, pay]])])
     # -- larger chains (thorough only)
-    add('selfspend-3addr', [tx('T1', 'block', ['ext'], [['r0', 50, pay], ['r1', 20, pay], ['r2', 10, pay]])],
-        [tx('T2', 'mempool', [['T1', 0], ['T1', 1], ['T1', 2]], [['c0', 79, pay]])], quick=False)
     add('two-spends-interleaved', [tx('T1', 'block', ['ext'], [['r0', 50, pay]]),
                                    tx('T2', 'block', ['ext'], [['r1', 30, pay]])],
         [tx('T3', 'mempool', [['T1', 0]], [['x', 20, 'p2pkh'], ['c0', 29, pay]]),
@@ -270,9 +268,8 @@ def notification_sets(spec):
     from vf import sync_h as H
     h = H.SyncHarness(spec)
     try:
-        t = h.loop.create_task(h.ledger.subscribe_account(h.account))
+        h.ledger._update_tasks.add(h.ledger.subscribe_accounts())     # as Ledger.join_network() does
         h.drive(H.Zero())
-        t.result()
         out = []
         for s in range(len(h.built.stages)):
             out.append(h.notification_set(s))
@@ -308,6 +305,7 @@ def work(item, res):
     def on_result(ch, r):
         res.count('executions')
         res.count('evaluations')
+        res.count(f'executions_family_{"ABC"[bound]}')
         res.count('transitions', r['steps'] + r['iterations'])
         choices = ch.choices
         cost = ch.cost()
